@@ -170,6 +170,14 @@ func (g *GoBackNConn) Send(data []byte) error {
 		})
 	}
 
+	// An empty payload is still a message: it is sent as a single, final
+	// chunk so that the peer's Recv returns exactly once for it.
+	if len(data) == 0 {
+		return sendPacket(&PacketData{
+			FinalChunk: true,
+		})
+	}
+
 	// Splitting is enabled. Split into packets no larger than maxChunkSize.
 	var (
 		sentBytes = 0
